@@ -64,6 +64,17 @@ C12_ASSUME = ["the real Scheduler.Schedule runs one step with the real Node.setu
               "bufio.Writer model: 4096-byte buffer, large-write and ReadFrom bypass as in Go 1.23 (DESIGN 3.2); no I/O errors",
               "deterministic clock (distinct instants): log paths of different attempts differ"]
 
+AG_FLAGS = ["-unwind", "64", "-concrete-clock", "-stub", "(*@/internal/sock.Client).Request=sock-request", "-stub", "@/internal/persistence/model.StatusFromJSON=json-lookup",
+            "-stub", "(*@/internal/agent.reporter).reportStep=zero", "-stub", "(*@/internal/agent.reporter).report=zero", "-stub", "(*@/internal/agent.reporter).send=zero",
+            "-stub", "(*@/internal/dag/scheduler.Node).setup=zero", "-stub", "(*@/internal/dag/scheduler.Node).teardown=zero", "-stub", "@/internal/dag.EvalConditions=cond-eq"]
+AG_ASSUME = ["AGENT harness: the real agent.Run end to end over a recording history store, the socket/listener model, a scripted executor; reporter (console table, mail) and Node.setup/teardown stubbed"]
+
+
+def ag_ob(name, entry, prefixes, must, bounds):
+    return {"name": name, "pkg": "./internal/agent", "replay": "R1t", "labels_unordered": True, "label_prefixes": prefixes, "must_assert": must,
+            "quick": {"entry": entry, "flags": AG_FLAGS, "sample_paths": 1, "bounds": dict({"D": 0}, **bounds)}}
+
+
 PROPS = {    "C01": {
         "obligations": [
             {"name": "C01.gate", "pkg": SCHED, "replay": "R1",
@@ -96,17 +107,19 @@ PROPS = {    "C01": {
                    must=["C03.count/failing-step-is-retried-until-limit", "C03.count/recorded-retry-count-equals-extra-attempts"]),
             run_ob("C03.count-d1", "VerifHarness_RUN_C03_n2", 1, "VerifHarness_RUN_C03_n2x", 2, bq={"N": 2, "R": 2}, bt={"N": 2, "R": 2, "menu": "extended"},
                    must=["C03.count/failing-step-is-retried-until-limit"]),
+            ag_ob("C03.dryagent", "VerifHarness_AG_dry", ["C03."], ["C03.dryagent/no-history-is-written", "C03.dryagent/no-step-or-handler-command-runs"], {"steps": 2, "shape": "chain | parallel", "handlers": "onExit"}),
             run_ob("C03.dry", "VerifHarness_RUN_C03_dry3", 0, "VerifHarness_RUN_C03_dry3", 1, bq={"N": 3}, bt={"N": 3},
                    must=["C03.dry/no-step-command-in-dry-run", "C03.dry/no-handler-command-in-dry-run"]),
         ],
         "assumptions": ["distinct step names", "acyclic DAG", "the run is not stopped"] + RUN_ASSUME,
-        "outside_claim": COMMON_OUTSIDE + RUN_OUTSIDE + ["dry-run through agent.Run (no history written): not built yet; C03.dry covers Scheduler.Schedule with Dry=true"],
+        "outside_claim": COMMON_OUTSIDE + RUN_OUTSIDE,
     },
     "C04": {
         "obligations": [
             {"name": "C04.status", "pkg": SCHED, "replay": "R1",
              "quick": {"entry": "VerifHarness_C04_status3", "flags": ["-unwind", "16"], "bounds": {"N": 3}},
              "thorough": {"entry": "VerifHarness_C04_status4", "flags": ["-unwind", "16"], "bounds": {"N": 4}}},
+            ag_ob("C04.precond", "VerifHarness_AG_precond", ["C04."], ["C04.precond/no-step-and-no-handler-runs", "C04.precond/nothing-is-recorded"], {"steps": 1, "dag_preconditions": "met | unmet (literal)"}),
             run_ob("C04.run", "VerifHarness_RUN_C04_n2", 0, "VerifHarness_RUN_C04_n3", 0, bq={"N": 2, "R": 1, "handlers": "every subset", "stop": "at quiescent points"}, bt={"N": 3, "R": 1},
                    must=["C04.handlers/matching-handler-runs-exactly-once", "C04.handlers/exit-handler-runs-last", "C04.inv/failed-step-implies-last-error"]),
             run_ob("C04.run-d1", "VerifHarness_RUN_C04_n2s", 1, "VerifHarness_RUN_C04_n2", 1, bq={"N": 2, "R": 0, "handlers": "every subset", "stop": "at any yield point"}, bt={"N": 2, "R": 1},
@@ -114,7 +127,7 @@ PROPS = {    "C01": {
         ],
         "assumptions": ["C04.status: end-of-run pre-state constrained by invariant J (DESIGN C04), which is asserted on the threaded run harness (C04.inv/*)",
                         "a stop that arrives after every step has ended does not define the outcome; stopped-and-failed may be labelled canceled or failed"] + RUN_ASSUME,
-        "outside_claim": COMMON_OUTSIDE + RUN_OUTSIDE + ["handler time-outs, mail side effects", "DAG-level preconditions through agent.Run (C04.precond): not built yet"],
+        "outside_claim": COMMON_OUTSIDE + RUN_OUTSIDE + ["handler time-outs, mail side effects"],
     },
     "C05": {
         "obligations": [
@@ -171,6 +184,7 @@ PROPS = {    "C01": {
             {"name": "C08.byid", "pkg": "./internal/client", "replay": "R1",
              "quick": {"entry": "VerifHarness_C08_byid", "flags": ["-unwind", "16", "-stub", "(*@/internal/sock.Client).Request=sock-request", "-stub", "@/internal/persistence/model.StatusFromJSON=json-lookup"], "sample_paths": 2,
                        "bounds": {"socket": "live (same run | other run) | dead", "persisted": "all 5 values"}}},
+            ag_ob("C08.final", "VerifHarness_AG_run", ["C08.", "C04.handlers"], ["C08.final/final-status-is-final", "C08.final/attempt-counts-are-recorded", "C08.final/overall-status-matches-the-steps"], {"steps": "2 (chain)", "outcomes": "symbolic per attempt"}),
             run_ob("C08.persist", "VerifHarness_RUN_C08_n3", 0, "VerifHarness_RUN_C08_n3", 1, bq={"N": 3, "R": 1}, bt={"N": 3, "R": 1},
                    must=["C08.persist/run-in-progress-is-not-recorded-as-succeeded"]),
             run_ob("C08.persist-d1", "VerifHarness_RUN_C08_n2", 1, "VerifHarness_RUN_C08_n2", 2, bq={"N": 2, "R": 1}, bt={"N": 2, "R": 1},
@@ -204,6 +218,8 @@ PROPS = {    "C01": {
             {"name": "C10.reset", "pkg": SCHED, "replay": "R1",
              "quick": {"entry": "VerifHarness_C10_reset4", "flags": ["-unwind", "24"], "bounds": {"N": 4, "recorded_status": "all 6 values", "retry/done counts": "0..2"}},
              "thorough": {"entry": "VerifHarness_C10_reset4", "flags": ["-unwind", "24"], "bounds": {"N": 4}}},
+            ag_ob("C10.retry", "VerifHarness_AG_retry", ["C10."], ["C10.newrun/history-is-opened-under-the-new-request-id", "C10.exec/unfinished-step-is-re-executed", "C10.exec/step-that-completed-is-not-re-executed"],
+                  {"steps": "2 (chain)", "recorded_status": "all 6 values per step, reachable vectors", "continueOn.failure": "symbolic"}),
         ],
         "assumptions": ["distinct step names", "recorded steps listed in a topological order (as the builder produces them is NOT assumed by the code; the harness builds deps j<i)"],
         "outside_claim": COMMON_OUTSIDE + ["parameter values of the recorded run (regexp submatch semantics; DESIGN section 7)"],
@@ -284,8 +300,9 @@ PROPS = {    "C01": {
             {"name": "C14.iff-dangling", "pkg": SCHED, "replay": "R1",
              "quick": {"entry": "VerifHarness_C14_iff3", "flags": ["-unwind", "40"], "bounds": {"N": 3, "edge_bits": 9, "self_loops": 1, "dangling": "none | one step, first or last in depends"}},
              "thorough": {"entry": "VerifHarness_C14_iff4d", "flags": ["-unwind", "40"], "bounds": {"N": 4, "edge_bits": 12, "self_loops": 0, "dangling": "none | one step, first or last in depends"}}},
+            ag_ob("C14.refuse", "VerifHarness_AG_refuse", ["C14."], ["C14.refuse/no-step-or-handler-executes", "C14.refuse/nothing-is-recorded"], {"defects": "2-cycle | self-dependency | dangling name | cycle behind an entry step"}),
         ],
-        "assumptions": ["distinct step names", "map iteration in insertion order (results do not depend on order for distinct names)"],
+        "assumptions": ["distinct step names", "map iteration in insertion order (results do not depend on order for distinct names)"] + AG_ASSUME,
         "outside_claim": COMMON_OUTSIDE + ["random graphs of up to 40 steps (sampling; not this technique)"],
     },
     "C16": {
